@@ -60,7 +60,7 @@ def run_probe(cdir, picks=False, timeout=120):
     """Helper for callers: run the probe in a fresh interpreter."""
     import subprocess
     env = dict(os.environ)
-    env["PYTHONPATH"] = "/repo:" + os.path.dirname(
+    env["PYTHONPATH"] = os.environ.get("VERIF_REPO", "/repo") + ":" + os.path.dirname(
         os.path.dirname(os.path.abspath(__file__)))
     cmd = [sys.executable, "-m", "vf.probe_restart", cdir]
     if picks:
